@@ -154,6 +154,46 @@ fn size_programs() -> Vec<String> {
     v
 }
 
+/// Every kind of size-contributing line (1 and 3 times) as a prefix, then `.ORG` just behind the
+/// prefix or near the end of the RAM, then a tail that brings the image to 236..=242 bytes: the
+/// translator's address counter and the emitted image must agree for every kind at the RAM limit.
+fn prefix_org_limit_programs() -> Vec<String> {
+    let kinds: [(&str, usize); 16] = [
+        (" .DB 7\n", 1),
+        (" .DB 1, 2, 3\n", 3),
+        (" .DB 0x1234\n", 1),
+        (" .DW 0x0102\n", 2),
+        (" .DW 1, 2, 3\n", 6),
+        (" .BYTE 3\n", 3),
+        (" NOP\n", 1),
+        (" LD R0, 5\n", 3),
+        (" LD R1, X\n", 3),
+        (" MOV (X), (X)\n", 4),
+        (" ST (0xF0), R0\n", 3),
+        (" JR X\n", 2),
+        (" CALL X\n", 2),
+        (" DEC (X)\n", 2),
+        (" .EQU Y 5\n", 0),
+        ("Z:\n", 0),
+    ];
+    let mut v = vec![];
+    for (k, sz) in kinds {
+        for reps in [1usize, 3] {
+            let pre = sz * reps;
+            let mut orgs: Vec<usize> = (pre..=pre + 2).collect();
+            orgs.extend(230..=241);
+            for org in orgs {
+                for total in org.max(236)..=242 {
+                    // one Z label only
+                    let body: String = if k == "Z:\n" { k.to_string() } else { k.repeat(reps) };
+                    v.push(format!("{}X:\n{} .ORG {}\n{}", HDR, body, org, db_fill(total - org)));
+                }
+            }
+        }
+    }
+    v
+}
+
 #[derive(Default)]
 struct Out {
     n: u64,
@@ -304,6 +344,7 @@ pub fn run() {
     run_family("org-after-every-position", &orgs, &mut fam, &mut all);
     let sizes = size_programs();
     run_family("images-of-every-size", &sizes, &mut fam, &mut all);
+    run_family("every-line-kind-then-org-at-the-ram-limit", &prefix_org_limit_programs(), &mut fam, &mut all);
     // the layout families of C02: every relative jump distance, every shape after directive prefixes, limits
     let jumps = crate::c02::jump_programs(!quick);
     run_family("relative-jumps-every-distance", &jumps, &mut fam, &mut all);
